@@ -179,7 +179,10 @@ pub fn child_main(args: &[String]) {
     let rt = tokio::runtime::Builder::new_multi_thread().worker_threads(4).enable_all().build().unwrap();
     let acc = rt.block_on(session(tier, seed, case, dir));
     println!("RESULT {}", serde_json::to_string(&acc).unwrap());
-    std::process::exit(0);
+    use std::io::Write;
+    let _ = std::io::stdout().flush();
+    // library threads are still running: leave without running the exit handlers of the C libraries under them
+    unsafe { libc::_exit(0) }
 }
 
 async fn session(tier: Tier, seed: u64, case: u64, dir: std::path::PathBuf) -> Acc {
